@@ -22,6 +22,12 @@ type c11src struct {
 	ch          chan blockntfns.BlockNtfn
 	emitted     []blockntfns.BlockNtfn
 	failBacklog bool
+	// gateNext makes the next backlog read a parking point: the snapshot is
+	// taken, then the call only returns when the explorer says so (a long
+	// backlog read from disk), so that events can be emitted in between
+	gateNext  bool
+	parked    chan struct{}
+	onBacklog func(heights []uint32)
 }
 
 func (s *c11src) Notifications() <-chan blockntfns.BlockNtfn { return s.ch }
@@ -33,7 +39,22 @@ func (s *c11src) NotificationsSinceHeight(h uint32) ([]blockntfns.BlockNtfn, uin
 			out = append(out, n)
 		}
 	}
-	return out, uint32(len(s.emitted)), nil
+	best := uint32(len(s.emitted))
+	if s.onBacklog != nil {
+		var hs []uint32
+		for _, n := range out {
+			hs = append(hs, n.Height())
+		}
+		s.onBacklog(hs)
+		s.onBacklog = nil
+	}
+	if s.gateNext {
+		s.gateNext = false
+		g := make(chan struct{})
+		s.parked = g
+		<-g
+	}
+	return out, best, nil
 }
 
 func mkNtfn(i int) blockntfns.BlockNtfn {
@@ -48,6 +69,10 @@ type c11client struct {
 	got     []uint32
 	closed  bool
 	cancels int
+	// expecting: the source has handed out this client's backlog snapshot;
+	// whatever is emitted from now on is due to it
+	expecting bool
+	pending   *verifbubble.Task // NewSubscription in flight (backlog read parked)
 }
 
 const c11Burst = 25
@@ -80,6 +105,7 @@ func c11Run(c *verifeng.Chooser, depth, nclients int) {
 		clients[i] = &c11client{}
 	}
 	stopped := false
+	var pendingEmits []*verifbubble.Task
 
 	// act runs f as an actor and requires it to return by quiescence.
 	act := func(name string, f func() (any, error)) (*verifbubble.Task, bool) {
@@ -96,14 +122,51 @@ func c11Run(c *verifeng.Chooser, depth, nclients int) {
 			n := mkNtfn(len(src.emitted) + 1)
 			src.emitted = append(src.emitted, n)
 			for _, cl := range clients {
-				if cl.state == "sub" && !cl.frozen {
+				if (cl.state == "sub" || cl.expecting) && !cl.frozen {
 					cl.expect = append(cl.expect, n.Height())
 				}
+			}
+			if src.parked != nil {
+				// the manager may be busy with the backlog read: the
+				// send completes when it gets there
+				pendingEmits = append(pendingEmits, verifbubble.Go("emit", func() (any, error) { src.ch <- n; return nil, nil }))
+				verifbubble.Wait()
+				continue
 			}
 			if _, ok := act("emit", func() (any, error) { src.ch <- n; return nil, nil }); !ok {
 				return false
 			}
 		}
+		return true
+	}
+	// release lets the parked backlog read return; the subscription call
+	// and every emit launched meanwhile must then complete
+	release := func() bool {
+		close(src.parked)
+		src.parked = nil
+		verifbubble.Wait()
+		for i, cl := range clients {
+			if cl.pending == nil {
+				continue
+			}
+			tk := cl.pending
+			cl.pending = nil
+			if !tk.Done() {
+				return !c.Fail("blocked", "NewSubscription-blocks", "NewSubscription(c%d) has not returned although its backlog read has and every goroutine is idle", i)
+			}
+			if tk.Err != nil {
+				return !c.Fail("subscribe", "subscribe-fails", "NewSubscription failed: %v", tk.Err)
+			}
+			cl.sub = tk.Val.(*blockntfns.Subscription)
+			cl.state = "sub"
+			cl.expecting = false
+		}
+		for _, tk := range pendingEmits {
+			if !tk.Done() {
+				return !c.Fail("blocked", "emit-blocks", "an event sent while a backlog was being read was never taken by the manager")
+			}
+		}
+		pendingEmits = nil
 		return true
 	}
 	readOne := func(i int) (got bool) {
@@ -161,6 +224,24 @@ func c11Run(c *verifeng.Chooser, depth, nclients int) {
 			run  func() bool
 		}
 		var menu []ev
+		if src.parked != nil {
+			// a backlog read is in progress: the source goes on emitting,
+			// or the read returns
+			if len(pendingEmits) < 2 {
+				menu = append(menu, ev{"emit (while a backlog is being read)", func() bool { return emit(1) }})
+			}
+			menu = append(menu, ev{"the backlog read returns", release})
+			e := menu[c.ChooseFree(len(menu), "event")]
+			c.Step("%s", e.name)
+			if !e.run() {
+				return
+			}
+			verifbubble.Wait()
+			if check(false) {
+				return
+			}
+			continue
+		}
 		if !stopped {
 			menu = append(menu, ev{"emit", func() bool { return emit(1) }})
 			menu = append(menu, ev{fmt.Sprintf("burst(%d)", c11Burst), func() bool { return emit(c11Burst) }})
@@ -168,7 +249,23 @@ func c11Run(c *verifeng.Chooser, depth, nclients int) {
 		for i := range clients {
 			i := i
 			cl := clients[i]
-			if cl.state == "" {
+			if cl.state == "" && !stopped && cl.pending == nil {
+				menu = append(menu, ev{fmt.Sprintf("subscribe(c%d,from=0) with a slow backlog read", i), func() bool {
+					src.gateNext = true
+					src.onBacklog = func(hs []uint32) { cl.expect = hs; cl.expecting = true }
+					cl.pending = verifbubble.Go(fmt.Sprintf("NewSubscription(c%d)", i), func() (any, error) {
+						s, err := m.NewSubscription(0)
+						return s, err
+					})
+					verifbubble.Wait()
+					if src.parked == nil {
+						c.Fail("blocked", "NewSubscription-blocks", "NewSubscription(c%d) neither returned nor asked the source for the backlog", i)
+						return false
+					}
+					return true
+				}})
+			}
+			if cl.state == "" && cl.pending == nil {
 				for _, from := range []string{"0", "tip"} {
 					from := from
 					menu = append(menu, ev{fmt.Sprintf("subscribe(c%d,from=%s)", i, from), func() bool {
@@ -249,6 +346,13 @@ func c11Run(c *verifeng.Chooser, depth, nclients int) {
 		}
 	}
 	if c.Failed() {
+		return
+	}
+	if src.parked != nil && !release() {
+		return
+	}
+	verifbubble.Wait()
+	if check(false) {
 		return
 	}
 	// Wind down: stop the manager; every channel must then be closed after
